@@ -27,7 +27,7 @@ CaseOf(t) ==
      sd |-> t.sd,
      lnames |-> t.lnames,
      larrs |-> [a \in DOMAIN t.larrs |-> Conv(t.larrs[a])],
-     lsd |-> t.lsd, error |-> t.error]
+     lsd |-> t.lsd, lext |-> t.lext, error |-> t.error]
 
 Verdict(t) ==
     LET c == CaseOf(t)
